@@ -474,8 +474,10 @@ func (g *projGen) perturb(m *pMethod, structNames []string) string {
 	case "unknown-annotation":
 		m.Annots = append(m.Annots, pAnnot{Name: "Foo", Value: "bar"})
 	case "bad-status":
-		// not a number, signed, beyond 32 bits (all "not numeric": an error), numeric but not a status code (a warning)
-		m.Annots = append(m.Annots, pAnnot{Name: rng.Pick(r, []string{"ErrorResponse", "ErrorResponse", "Response"}), Value: rng.Pick(r, []string{"abc", "999", "-204", "40400000000", "4294967296", "4294967295"}), Desc: "x"})
+		// not a number, signed, with digit separators (strconv.ParseUint takes ASCII digits only; a `+` or a non-ASCII digit
+		// cannot be written at all: the annotation's value is [\w-_/\\{} ]+), beyond
+		// 32 bits (all "not numeric": an error), numeric but not a status code, or one with a leading zero (a warning / fine)
+		m.Annots = append(m.Annots, pAnnot{Name: rng.Pick(r, []string{"ErrorResponse", "ErrorResponse", "Response"}), Value: rng.Pick(r, []string{"abc", "999", "-204", "40400000000", "4294967296", "4294967295", "2_00", "4_0_4", "0404", "40 4", "_404"}), Desc: "x"})
 	case "prefix-url-param":
 		// a url variable whose name is a proper prefix of an EARLIER one, unbound or repeated: the diagnostic must
 		// cover `{zz}`, not the head of `{zzType}`
